@@ -309,6 +309,8 @@ pub struct Profile {
     pub sticky_handle_permille: u32,
     /// a control client abandons a request right after starting it
     pub abandon_request_permille: u32,
+    /// the observer takes the lock of the shared storage while handling an event
+    pub observer_reads_storage_permille: u32,
 }
 
 impl Profile {
@@ -358,6 +360,7 @@ impl Profile {
             neighbour_mutates_permille: 0,
             sticky_handle_permille: 0,
             abandon_request_permille: 0,
+            observer_reads_storage_permille: 0,
         }
     }
 }
